@@ -66,7 +66,21 @@ async fn project(agent: &klukai_types::agent::Agent) -> eyre::Result<Value> {
         let s = agent.schema().read();
         s.tables.iter().map(|(n, t)| (n.clone(), { let mut c: Vec<String> = t.columns.keys().cloned().collect(); c.sort(); c })).collect()
     };
-    Ok(json!({"tables": tables.values().collect::<Vec<_>>(), "corro_schema": corro_schema, "mem": mem}))
+    // indexes: as the node's in-memory schema and as the persisted record (__corro_schema) list them
+    let mem_idx: BTreeMap<String, Vec<String>> = {
+        let s = agent.schema().read();
+        s.tables.iter().map(|(n, t)| (n.clone(), { let mut c: Vec<String> = t.indexes.keys().cloned().collect(); c.sort(); c })).collect()
+    };
+    let corro_idx: BTreeMap<String, Vec<String>> = {
+        let mut st = conn.prepare("SELECT tbl_name, name FROM __corro_schema WHERE type = 'index' ORDER BY tbl_name, name")?;
+        let rows: Vec<(String, String)> = st.query_map([], |r| Ok((r.get(0)?, r.get(1)?)))?.collect::<rusqlite::Result<_>>()?;
+        let mut m: BTreeMap<String, Vec<String>> = BTreeMap::new();
+        for (t, n) in rows {
+            m.entry(t).or_default().push(n);
+        }
+        m
+    };
+    Ok(json!({"tables": tables.values().collect::<Vec<_>>(), "corro_schema": corro_schema, "mem": mem, "mem_idx": mem_idx, "corro_idx": corro_idx}))
 }
 
 pub async fn run(input: &str) -> eyre::Result<()> {
